@@ -16,10 +16,10 @@ pub fn run(rep: &mut Report) {
         (config, target, level)".to_owned();
     rep.assume("deliveries are compared as multisets keyed by appender name; delivery order is not judged");
     rep.assume("logger names come from a small component alphabet (a, b, ab, a_b, é, bc), depth <= 6, <= 8 loggers");
-    let n = if rep.tier == "thorough" { 20_000 } else { 400 };
+    let n = if rep.tier == "thorough" { 100_000 } else { 4_000 };
     run_cases(rep, "config", n, |rep, rng, _| one_config(rep, rng, 8, 5));
     // a second family: many loggers, deep names
-    let n2 = if rep.tier == "thorough" { 2_000 } else { 40 };
+    let n2 = if rep.tier == "thorough" { 10_000 } else { 400 };
     run_cases(rep, "deep", n2, |rep, rng, _| one_config(rep, rng, 24, 7));
     rep.require(rep.counter("deliveries_compared") > 1000, "fewer than 1000 deliveries compared");
     rep.require(rep.counter("probes_effective_nonroot") > 100, "too few probes reached a non-root logger");
